@@ -12,7 +12,7 @@ pub fn property() -> Property {
     Property {
         id: "C01",
         level: "exploration",
-        rule: "H1 scripted transport serves generator-built responses (payload x framing x chunking x trailing garbage) under a chosen TCP segmentation; the caller consumes with a chosen read plan; oracle = byte equality with the generator's payload, clean end, and Ok(0) on reads after the end. Generators: allsplits = ALL 2^(n-1) segmentations of small body wires (exhaustive); splitpoints = every single split point and the 1-byte-per-read script of 24 fixed base responses (exhaustive); random/large = seeded random. A case is non-trivial when the payload is non-empty or the wire is served in >= 2 segments; distinct = hash(wire, segmentation, read plan).",
+        rule: "H1 scripted transport serves generator-built responses (payload x framing x chunking x trailing garbage) under a chosen TCP segmentation; the caller consumes with a chosen read plan; oracle = byte equality with the generator's payload, clean end, and Ok(0) on reads after the end. Generators: allsplits = ALL 2^(n-1) segmentations of small body wires (exhaustive); splitpoints = every single split point and the 1-byte-per-read script of 24 fixed base responses (exhaustive); random/large = seeded random. A case is non-trivial when the payload is non-empty or the wire is served in >= 2 segments; distinct = hash(wire, segmentation, read plan). Random cases are served under 200/201/404/503 and the never-followed 3xx statuses 300/305/306/399, a few status lines announce HTTP/1.0.",
         assumptions: &[
             "the scripted transport replaces only the TCP dial; request writing and the whole response pipeline are production code",
             "responses are well-formed by construction (generator is the ground truth)",
@@ -87,7 +87,8 @@ pub fn run_case(ctx: &mut Ctx, c: &Case) {
             return;
         }
     };
-    if resp.status().as_u16() != 200 {
+    let sent_status: u16 = c.status_line.split(' ').nth(1).and_then(|x| x.parse().ok()).unwrap_or(200);
+    if resp.status().as_u16() != sent_status {
         ctx.violation("wrong-status", format!("status {} for wire {}", resp.status(), show(&built.wire)));
     }
     let out = consume(resp, &c.plan, c.extra_reads);
@@ -349,7 +350,10 @@ fn run_random(ctx: &mut Ctx, rng: &mut Rng, _index: u64) {
     };
     let built_len = payload.len() + 64;
     let _ = built_len;
-    let status_line = *rng.pick(&["HTTP/1.1 200 OK", "HTTP/1.1 200", "HTTP/1.0 200 OK", "HTTP/1.1 200 Fine And Dandy"]);
+    // (the framing does not depend on the status: error statuses and the 3xx codes that are never
+    //  followed - 300, 305, 306, 399 - deliver their bodies like any other; redirects are followed by default here)
+    let status_line = *rng.pick(&["HTTP/1.1 200 OK", "HTTP/1.1 200", "HTTP/1.0 200 OK", "HTTP/1.1 200 Fine And Dandy", "HTTP/1.1 200 OK", "HTTP/1.1 201 Created", "HTTP/1.1 404 Not Found", "HTTP/1.1 503 Busy", "HTTP/1.1 300 Multiple Choices", "HTTP/1.1 305 Use Proxy", "HTTP/1.1 306 Unused", "HTTP/1.1 399 Unassigned"]);
+    ctx.set_add("status_lines", status_line.to_owned());
     // hot offsets need the wire: build once here (cheap relative to the run)
     let b = build_response(status_line, &[], framing, &payload, &sizes, &styles, &garbage);
     let hot = respgen::hot_offsets(&b.wire[..b.wire.len().min(70_000)], b.head_len);
